@@ -324,6 +324,26 @@ Proof.
     try (intros [|[|[|ci]]] H; simpl; lia); try (destruct ci as [|[|[|ci]]]; simpl; lia).
 Qed.
 
+(* curl (rotate90 v) = rotate90 (curl v) in three dimensions: r x = component mapped to axis x (any
+   bijection); Field.rotate90 rotates the components r a and r b of v, and the components a and b of the
+   curl field (whose result is mapped identically onto the axes) *)
+Theorem C05_rot90_commute_curl : forall (K : FOps), FLaws K ->
+  forall (M : cmesh K) a b k v valid (q : idx) (r : list nat) x,
+  rot_ok K M a b k q -> cm_nd M = 3%nat -> (x < 3)%nat -> length r = 3%nat -> NoDup r ->
+  curl_v K (rotM K M a b k) r
+         (rot_comp K (fst (kturn K k)) (snd (kturn K k)) (nth a r 0%nat) (nth b r 0%nat)
+                   (rot90 (cm_sh M ++ [3%nat]) a b k v))
+         (rot90 (cm_sh M) a b k valid) (q ++ [x])
+  = rot_comp K (fst (kturn K k)) (snd (kturn K k)) a b
+      (rot90 (cm_sh M ++ [3%nat]) a b k (curl_v K M r v valid)) (q ++ [x]).
+Proof. exact curl_rot90. Qed.
+Print Assumptions C05_rot90_commute_curl.
+
+Example C05_rot90_commute_curl_nonvacuous : NoDup [2; 0; 1]%nat /\ cm_nd C05_demo_mesh = 3%nat.
+Proof.
+  split; [|reflexivity]. repeat constructor; simpl; intuition discriminate.
+Qed.
+
 Example C05_rot90_commute_nonvacuous : rot_ok QcOps C05_demo_mesh 0 2 1 [2; 3; 1]%nat.
 Proof.
   split; try reflexivity; try discriminate; try (cbv; lia).
